@@ -47,7 +47,8 @@ BOUND = ('unit (_body_read): payload sizes {0,1,buff-1,buff,buff+1,10*buff, max-
          'the threshold and around threshold-minus-headers, file sizes {0,buffer+1,10*buffer}, orders text|file|text+file|'
          'file+text|text+text, buffer {64,128}, max {None, body, body-1, body//2}) x both framings x 3 fragmentations; '
          'exhaustive over that list; thorough adds every size 0..max+buffer+2 for max in {None,0..7} x buffer 1..6 (unit and raw) '
-         'x 6 fragmentations; plus seeded random sizes/limits/chunkings/field lists (300 quick / 20000 thorough).')
+         'x 6 fragmentations; plus seeded random sizes/limits/chunkings/field lists (300 quick / 20000 thorough); '
+         'blank file inputs (filename="") of threshold+1 and 10x threshold bytes, alone and after a text field: never loaded into memory as form text.')
 NONTRIVIAL_RULE = ('distinct (kind, size(s), max_body_size, max_memfile_size, framing, chunk cycle, fragmentation); '
                    'non-trivial = non-empty payload and (a limit is configured or the payload exceeds the threshold)')
 
@@ -119,6 +120,10 @@ def _mp_fields_space(buff):
     for t1, t2 in ((1, 1), (3, buff), (buff + 1, 1), (1, buff + 1), (buff // 2, buff // 2), (buff // 2 + 1, buff // 2 + 1),
                    (buff // 2, buff // 2 + 1)):
         yield [['text', 't', t1], ['text', 'u', t2]]
+    # a blank file input (filename=""): neither a text field nor an upload with a name; its data must not be pulled into memory
+    for f in (buff + 1, 10 * buff):
+        yield [['blank', 'f', f]]
+        yield [['text', 't', 1], ['blank', 'f', f]]
 
 
 def gen_cases(tier, seed):
@@ -214,6 +219,8 @@ def _mp_fieldlist(fields):
     for kind, name, size in fields:
         if kind == 'text':
             out.append(('text', name, ''.join(chr(97 + (i * 3 + len(name)) % 26) for i in range(size))))
+        elif kind == 'blank':
+            out.append(('file', name, '', None, bytes(97 + (i * 7) % 26 for i in range(size))))
         else:
             out.append(('file', name, name + '.bin', None, bytes((i * 11 + 5) % 251 for i in range(size))))
     return out
@@ -426,6 +433,13 @@ def _run_app(case, payload, wire, stream, mx, buff, too_big, bound):
             return None
         # multipart
         fl = _mp_fieldlist(case['fields'])
+        blanks = [f for f in fl if f[0] == 'file' and f[2] == '']
+        if blanks:
+            # only the memory clause is judged for a blank file input: no form value may be text longer than the threshold
+            big = {k: len(v) for k, v in (seen.get('forms') or {}).items() if isinstance(v, (str, bytes)) and len(v) > buff}
+            if big:
+                return fail('T4.blank_file_part_loaded_into_memory', sizes=big, threshold=buff, status=res.status)
+            return None
         texts = [f for f in fl if f[0] == 'text']
         files = [f for f in fl if f[0] == 'file']
         biggest_text = max([len(f[2].encode()) for f in texts] or [0])
